@@ -66,8 +66,9 @@ def cases(tier, seed):
                         out.append({"n": n, "plan": list(plan), "crc": crc, "stall": "ack", "D": 1 if tier == "quick" else 2,
                                     "seed": seed, "pre": pre, "pre_n": pre_n})
     # the payload handed over in pieces through the buffered writer (buffer smaller than the payload: it is recycled)
-    for n, bufs, pieces in ((36, (8, 16), (1, 5, 10)), (64, (8, 16), (5, 10, 33)), (150, (16, 64), (10, 100)),
-                            (3000, (None,), (100, 1023)), (2100, (None, 512), (1025, 7))):
+    for n, bufs, pieces in ((22, (2, 3, 5, 7, 8, 13, 14, 16), tuple(range(1, 18))), (36, (2, 3, 7, 8, 13, 16), (1, 5, 6, 7, 8, 10, 13, 29)),
+                            (64, (8, 16), (5, 10, 33)), (150, (16, 64), (10, 100)),
+                            (3000, (None,), (100, 1023)), (2100, (None, 512), (1025, 7, 1024, 2099))):
         for buf in bufs:
             for piece in pieces:
                 for crc in ("granted", "not-requested"):
